@@ -193,6 +193,19 @@ def run(ctx: Ctx) -> None:
     # guards against the three fields vanishing -- __init__, reset and one counted writer each)
     r.floor(9)
 
+    r = ctx.rule("R09.cyc", "inside the cache code only the counted methods add to the cycle counter (their paths are judged by R09.acct)")
+    allowed_cyc = {f.qname for f, _ in counted_methods(m)} | sanctioned_helpers(m)
+    n_cyc = 0
+    for f, st, t in attr_stores(m, "cycles"):
+        if ".uarch.memory." not in f.qname:
+            continue
+        n_cyc += 1
+        ok = f.qname in allowed_cyc and isinstance(st, ast.AugAssign) and isinstance(st.op, ast.Add) \
+            and ast.unparse(st.value) == f"{f.params[0]}.miss_penality"
+        r.check(ok, f"{short(f.qname)}|cycles", f.loc(st), f"{short(f.qname)} adds to the cycle counter (`{seg(f, st)}`): every counted miss must "
+                "add exactly the configured miss penalty, and nothing else in the cache may")
+    r.floor(3)
+
     once_rule(ctx)
     from ..siblingrule import sibling_rule
     from ..wiring import wiring_rule
